@@ -1,6 +1,7 @@
 package props
 
 import (
+	"bufio"
 	"bytes"
 	"encoding/json"
 	"fmt"
@@ -34,7 +35,15 @@ type C15Case struct {
 }
 
 func sourceErr(kind int) error {
-	switch kind % 6 {
+	switch kind % 9 {
+	case 8:
+		// sentinel values of the packages the Readers are built on: as a source's error they are
+		// errors like any other (bufio.Reader.Peek passes the source's error through unchanged)
+		return bufio.ErrBufferFull
+	case 7:
+		return io.ErrNoProgress
+	case 6:
+		return io.ErrShortBuffer
 	case 5:
 		// a deadline-style error (Timeout() == true), as net.Conn / os.File report
 		return &os.PathError{Op: "read", Path: "conn", Err: os.ErrDeadlineExceeded}
@@ -75,7 +84,7 @@ func drawC15(t *rapid.T) C15Case {
 		}
 		c.Members = append(c.Members, m)
 	}
-	c.ErrKind = rapid.IntRange(0, 5).Draw(t, "errkind")
+	c.ErrKind = rapid.IntRange(0, 8).Draw(t, "errkind")
 	c.FailWith = rapid.Bool().Draw(t, "failwith")
 	// a recovering source only together with "error alone": when an error arrives together with exactly
 	// the bytes an io.ReadFull was waiting for, io.ReadFull itself drops it (standard library semantics,
